@@ -118,6 +118,7 @@ def run_case(desc):
         if not ok:
             return out.fail("returns-normally", "get_cell_list: %r" % cl, key="exc:" + exc_key(cl))
         Mpos = np.array([pos[i] + np.array(o, float) @ cell for i, o in sure]) if sure else np.zeros((0, 3))
+        batch = []
         for q in desc["queries"]:
             if q["kind"] == "uniform":
                 qp = np.array(q["frac"], float) @ cell
@@ -132,6 +133,7 @@ def run_case(desc):
                 f[~pbc] = np.clip(f[~pbc], 0.0, 1.0)
                 qp = f @ cell
             out.cls("query=" + q["kind"])
+            batch.append((qp.copy(), int(q["Z"])))
             ok, r = call(cl.get_neighbours_for_position, float(qp[0]), float(qp[1]), float(qp[2]))
             if not ok:
                 return out.fail("returns-normally", "get_neighbours_for_position: %r" % r, key="exc:" + exc_key(r))
@@ -205,6 +207,48 @@ def run_case(desc):
                     out.fail("simple-nearest", "expected atom %d, got %r" % (best, ms[0]))
                 elif np.abs(np.array(ds[0], float) - v[best]).max() > 1e-7 * scale:
                     out.fail("simple-displacement", "displacement %s, expected %s" % (np.array(ds[0]).tolist(), v[best].tolist()))
+        # ---- the same queries as ONE batched call (how every caller uses get_matches): results must not depend on
+        #      what the other positions of the batch were --------------------------------------------------------
+        if len(batch) >= 2:
+            tolb = desc["queries"][0]["tolfrac"] * min(ext, cut)
+            Q = np.array([b[0] for b in batch]); nums_b = [b[1] for b in batch]
+            exp = []
+            amb_any = False
+            for qp, num in batch:
+                v, f, dmin, gap = omic.mic(qp[None, :] - pos, cell, pbc)
+                order = np.argsort(dmin); best = int(order[0]); d0 = dmin[best]
+                if abs(d0 - tolb) < M or (len(order) > 1 and dmin[order[1]] - d0 < M) or gap[best] < M:
+                    amb_any = True
+                exp.append(("vacancy", None, None) if d0 > tolb else (("match" if Z[best] == num else "substitution"), best, f[best]))
+            if not amb_any:
+                out.cls("batch-checked")
+                ok, res = call(mg.get_matches, at, cl, Q.copy(), list(nums_b), tolb)
+                if not ok:
+                    return out.fail("returns-normally", "get_matches(batch): %r" % res, key="exc-batch:" + exc_key(res))
+                m, sb, vac, ci = res
+                nvac = sum(1 for e in exp if e[0] == "vacancy")
+                if len(m) != len(batch) or len(sb) != len(batch) or len(ci) != len(batch):
+                    out.fail("batch-shape", "get_matches returned lists of wrong length for a batch of %d" % len(batch))
+                else:
+                    for k, e in enumerate(exp):
+                        got = "match" if m[k] is not None else "substitution" if sb[k] is not None else "vacancy"
+                        idx = m[k] if m[k] is not None else (getattr(sb[k], "index", None) if sb[k] is not None else None)
+                        if got != e[0] or (e[1] is not None and int(idx) != int(e[1])):
+                            out.fail("batch-matching", "batched get_matches: query %d of %s expected %s (atom %s), got %s (atom %s)" % (k, [x[0] for x in exp], e[0], e[1], got, idx), key="batch-matching")
+                            break
+                        if e[0] != "vacancy" and not np.array_equal(np.array(ci[k], float), np.asarray(e[2], float)):
+                            out.fail("batch-offset", "batched get_matches: query %d cell offset %s, expected %s" % (k, np.array(ci[k]).tolist(), np.asarray(e[2]).tolist()), key="batch-offset")
+                            break
+                    if len(vac) != nvac:
+                        out.fail("batch-vacancies", "batched get_matches reports %d vacancies, expected %d (%s)" % (len(vac), nvac, [x[0] for x in exp]), key="batch-vacancies")
+                ok, res = call(mg.get_matches_simple, at, cl, Q.copy(), list(nums_b), tolb)
+                if ok:
+                    ms, ds = res
+                    for k, e in enumerate(exp):
+                        want = e[1] if e[0] == "match" else None
+                        if (ms[k] is None) != (want is None) or (want is not None and int(ms[k]) != int(want)):
+                            out.fail("batch-simple", "batched get_matches_simple: query %d expected %s, got %s" % (k, want, ms[k]), key="batch-simple")
+                            break
     if out.nontrivial:
         out.cls("nontrivial")
     return out
